@@ -69,8 +69,6 @@ TypeOK == /\ sig \in 1..Len(Arity)
 Bounded == Cardinality(Deviating(args)) <= MaxDev
 
 (* number of calls the plan must contain when MaxDev = 1 (checked by the harness against the graph) *)
-RECURSIVE SumArity(_)
-SumArity(n) == IF n = 0 THEN 0 ELSE Arity[n] + SumArity(n - 1)
-PlanSize1 == Len(Arity) + SumArity(Len(Arity)) * Cardinality(Classes)
+PlanSize1 == Len(Arity) + Cardinality({x \in (1..Len(Arity)) \X (1..9) \X Classes : x[2] <= Arity[x[1]]})   \* no recursion: 300+ signatures
 (* printed by the generated root module: ASSUME PrintT(<<"plan_size_1", PlanSize1>>) *)
 =============================================================================
